@@ -26,6 +26,9 @@ func (x *Exec) doCall(s *State, in ssa.Instruction, c *ssa.CallCommon, k callCon
 			return
 		}
 		args = append(args, v)
+		if _, isB := c.Value.(*ssa.Builtin); !isB {
+			s.noteEscape(v)
+		}
 	}
 	var fv Val
 	if _, isB := c.Value.(*ssa.Builtin); !isB {
@@ -144,7 +147,7 @@ var pureExternPrefixes = []string{
 	"math.", "(*go.uber.org/zap.Logger).", "go.uber.org/zap.", "(*go.uber.org/zap.SugaredLogger).", "time.Now", "time.Since", "(time.Time).", "(time.Duration).",
 	"fmt.Println", "fmt.Printf", "fmt.Print", "log.Print", "unicode.", "unicode/utf8.", "bytes.Equal", "bytes.Compare", "bytes.HasPrefix", "bytes.IndexByte", "bytes.Index",
 	"encoding/hex.EncodeToString", "encoding/hex.EncodedLen", "encoding/hex.DecodedLen", "github.com/0chain/common/core/common.NewError",
-	"runtime.", "(*sync.WaitGroup).", "context.",
+	"runtime.", "(*sync.WaitGroup).", "context.", "github.com/tinylib/msgp/msgp.",
 }
 
 func isPureExtern(name string) bool {
@@ -340,7 +343,15 @@ func (x *Exec) applyContract(s *State, in ssa.Instruction, f *ssa.Function, fc *
 	if fc.Extern {
 		callee = fc.Key
 	}
+	if f == x.fn {
+		x.checkDecreases(s, fc, env, site, f)
+	}
 	pre := &SpecEnv{x: x, s: s, names: env, fnPkg: pkgOf(f)}
+	if recv := f.Signature.Recv(); recv != nil && len(args) > 0 && args[0].T != nil && fc.Opts["nilrecv"] == "" {
+		if _, isPtr := recv.Type().Underlying().(*types.Pointer); isPtr && args[0].T.Sort == SInt {
+			x.check(s, "requires", "pre:"+callee+"#recv-nonnil@"+site, Not(Eq(args[0].T, IntLit(0))), "method called on a nil receiver")
+		}
+	}
 	for _, rq := range fc.Requires {
 		t, err := pre.boolExpr(rq.E)
 		if err != nil {
@@ -401,7 +412,7 @@ func (x *Exec) applyContract(s *State, in ssa.Instruction, f *ssa.Function, fc *
 	for i := 0; i < rs.Len(); i++ {
 		t := rs.At(i).Type()
 		v := Var(x.eng.fresh("r$"+cleanName(f.Name())+"$"+rn[i]), x.sortOf(t))
-		s.assume(x.eng.typeInv(v, t, x.mode, s.alloc))
+		x.assumeTyped(s, v, t)
 		results = append(results, tv(v, t))
 	}
 	post := &SpecEnv{x: x, s: s, names: map[string]Val{}, fnPkg: pkgOf(f)}
@@ -665,6 +676,21 @@ func (x *Exec) cellKeys(elem types.Type) []string {
 	return []string{x.cellKey(elem)}
 }
 
+// cellSortOf: sort of the heap component `key` that holds (part of) a cell of type elem.
+func (x *Exec) cellSortOf(key string, elem types.Type) string {
+	if st, ok := structOf(elem); ok && !x.eng.opaqueStruct(elem) {
+		for i := 0; i < st.NumFields(); i++ {
+			if x.fieldKey(elem, st, i) == key {
+				return SArr(SInt, x.sortOf(st.Field(i).Type()))
+			}
+		}
+	}
+	if at, ok := elem.Underlying().(*types.Array); ok {
+		return SArr(SInt, SArr(SInt, x.sortOf(at.Elem())))
+	}
+	return SArr(SInt, x.sortOf(elem))
+}
+
 // staticKeys: heap components an address value may point into.
 func (x *Exec) staticKeys(addr ssa.Value) []string {
 	switch a := addr.(type) {
@@ -786,7 +812,15 @@ func (x *Exec) assignKeysStatic(fc *FuncContract, f *ssa.Function) []string {
 				return []string{"*"}
 			}
 		case e.Kind == eUn && e.Op == "*":
-			return []string{"*"}
+			t := typeOf(e.Args[0])
+			if t == nil {
+				return []string{"*"}
+			}
+			pt, ok := t.Underlying().(*types.Pointer)
+			if !ok {
+				return []string{"*"}
+			}
+			out = append(out, x.cellKeys(pt.Elem())...)
 		default:
 			return []string{"*"}
 		}
@@ -827,6 +861,15 @@ func (x *Exec) ifaceContract(c *ssa.CallCommon) *FuncContract {
 func (x *Exec) invoke(s *State, in ssa.Instruction, c *ssa.CallCommon, recv Val, args []Val, k callCont) {
 	site := x.siteName(s, in)
 	x.check(s, "safety", "nil:"+site, Not(Eq(ifTag(recv.T), IntLit(0))), "method call on nil interface")
+	if h, ok := intrinsics["("+c.Value.Type().String()+")."+c.Method.Name()]; ok {
+		res, err := h(x, s, in, nil, append([]Val{recv}, args...))
+		if err != nil {
+			x.abort(fmt.Sprintf("%s.%s: %v", c.Value.Type(), c.Method.Name(), err))
+			return
+		}
+		k(s, res)
+		return
+	}
 	if fc := x.ifaceContract(c); fc != nil {
 		// interface-level contract: a synthetic function value carries the signature
 		m := x.eng.prog.NewFunction(c.Method.Name(), c.Method.Type().(*types.Signature), "interface method")
@@ -835,21 +878,37 @@ func (x *Exec) invoke(s *State, in ssa.Instruction, c *ssa.CallCommon, recv Val,
 		return
 	}
 	impls := x.eng.implementers(c.Value.Type())
-	if !x.eng.closedIface(c.Value.Type()) || len(impls) == 0 {
+	if !x.eng.closedIface(c.Value.Type()) && len(impls) > 0 {
+		// open interface: devirtualise when the path condition pins the dynamic type to repository types
+		var others []*Term
+		for _, impl := range impls {
+			others = append(others, Not(Eq(ifTag(recv.T), IntLit(int64(x.eng.tagOf(impl))))))
+		}
+		if x.feasible(s, And(others...)) {
+			impls = nil
+		}
+	}
+	if len(impls) == 0 {
 		sig := c.Method.Type().(*types.Signature)
 		x.uncontracted["invoke "+c.Value.Type().String()+"."+c.Method.Name()] = true
 		x.havocAll(s)
 		k(s, x.freshResults(s, sig, c.Method.Name()))
 		return
 	}
-	// closed-world dispatch: one path per implementer
-	for i, impl := range impls {
+	// closed-world dispatch: one path per implementer whose tag is feasible here
+	var live []types.Type
+	for _, impl := range impls {
+		if x.feasible(s, Eq(ifTag(recv.T), IntLit(int64(x.eng.tagOf(impl))))) {
+			live = append(live, impl)
+		}
+	}
+	for i, impl := range live {
 		m := x.eng.prog.LookupMethod(impl, c.Method.Pkg(), c.Method.Name())
 		if m == nil {
 			continue
 		}
 		s2 := s
-		if i < len(impls)-1 {
+		if i < len(live)-1 {
 			s2 = s.clone()
 		}
 		x.paths++
@@ -963,7 +1022,7 @@ func (x *Exec) applyContractRaw(s *State, in ssa.Instruction, callee string, sig
 	for i := 0; i < rs.Len(); i++ {
 		t := rs.At(i).Type()
 		v := Var(x.eng.fresh("r$"+cleanName(callee)), x.sortOf(t))
-		s.assume(x.eng.typeInv(v, t, x.mode, s.alloc))
+		x.assumeTyped(s, v, t)
 		results = append(results, tv(v, t))
 		n := rs.At(i).Name()
 		if i < len(fc.Results) {
